@@ -37,7 +37,8 @@ type zoneNode struct {
 	nextDt       uint64
 	nextData     []byte
 	nextCoinbase common.Address
-	wantShare    bool // also submit a work share (a weaker sealing of the same pending header) to the node
+	h            *hier // set when the zone is the bottom of a real prime / region / zone hierarchy
+	wantShare    bool  // also submit a work share (a weaker sealing of the same pending header) to the node
 	shares       int
 }
 
@@ -143,6 +144,10 @@ func (n *zoneNode) mine(ph *types.WorkObject, wantOrder int) *types.WorkObject {
 
 // nextBlock asks the real worker for a pending header on top of the current head, mines and constructs the block.
 func (n *zoneNode) nextBlock(wantOrder int) (*types.WorkObject, error) {
+	if n.h != nil {
+		n.h.nextDt, n.h.nextCoinbase, n.h.nextData = n.nextDt, n.nextCoinbase, n.nextData
+		return n.h.next(wantOrder)
+	}
 	head := n.hc.CurrentHeader()
 	zph, err := n.sl.GeneratePendingHeader(head, true)
 	if err != nil {
@@ -188,6 +193,10 @@ func (n *zoneNode) finishBlock(wantOrder int) (*types.WorkObject, error) {
 }
 
 func (n *zoneNode) appendBlock(blk *types.WorkObject, inbound types.Transactions) error {
+	if n.h != nil {
+		_, err := n.h.add(blk)
+		return err
+	}
 	n.sl.WriteBlock(blk)
 	if _, order, err := n.hc.CalcOrder(blk); err == nil && order == common.REGION_CTX {
 		// a region block: the harness plays the region, which appends to the zone with the inbound ETXs it confirmed
@@ -250,4 +259,8 @@ func (n *zoneNode) submitShare(ph, sealed *types.WorkObject) {
 			return
 		}
 	}
+}
+
+func rawdbWithLoc(loc common.Location) ethdb.Database {
+	return rawdb.NewDatabase(locKV{memorydb.New(log.Global), loc})
 }
